@@ -37,7 +37,7 @@ using Arr = multi::array<Elem, D, Alloc>;
 using OArr = multi::array<Other, D>;
 constexpr bool POCCA = (H_TR & 1) != 0, POCMA = (H_TR & 2) != 0, POCS = (H_TR & 4) != 0, AEQ = (H_TR & 8) != 0;
 
-struct Model { std::vector<L> ext; std::vector<long> ids; bool unspec = false;  // unspec: contents unspecified (trivial element type, no fill) — refreshed from the array
+struct Model { std::vector<L> ext; std::vector<long> ids; std::vector<L> base; bool base_known = false; bool unspec = false;  // unspec: contents unspecified (trivial element type, no fill) — refreshed from the array
 	L n() const { L r = 1; for(auto e : ext) r *= e; return r; } };
 struct Slot { std::optional<Arr> a; Model m; int aid = 0, agen = 0; };
 
@@ -65,6 +65,7 @@ static bool matches(Arr const& a, Model& m, std::string& why) {
 	if(D == 0) { long got = id_of(*a.data_elements()); if(m.unspec) { m.ids = {got}; m.unspec = false; return true; } if(got != m.ids[0]) { why = "0-D element " + std::to_string(got) + " != " + std::to_string(m.ids[0]); return false; } return true; }
 	if(m.n() == 0) { if(a.num_elements() != 0 || !a.is_empty()) { why = "array not empty but model is (num_elements=" + std::to_string(a.num_elements()) + ")"; return false; } return true; }
 	auto sz = tuple_to_vec(a.sizes()); if(sz != m.ext) { why = "sizes " + join(sz, "x") + " != model " + join(m.ext, "x"); return false; }
+	{ std::vector<L> fs; std::apply([&](auto const&... x) { (fs.push_back(L(x.first())), ...); }, a.extensions().base()); if(m.base_known) { if(fs != m.base) { why = "first indices " + join(fs) + " != model " + join(m.base) + " (index bases are part of the extents)"; return false; } } else { m.base = fs; m.base_known = true; } }
 	if(a.num_elements() != m.n()) { why = "num_elements"; return false; }
 	Elem const* p = a.data_elements();
 	if(m.unspec) { m.ids.clear(); for(L k = 0; k < m.n(); ++k) m.ids.push_back(id_of(p[k])); m.unspec = false; return true; }
@@ -76,23 +77,25 @@ static bool matches(Arr const& a, Model& m, std::string& why) {
 // apply a model view op (kind) to get the logical contents of a view of b
 static bool view_of(int kind, Model const& b, Model& out, MV& mvout) {
 	if(b.n() == 0 || D == 0) return false; MV r = MV::root(b.ext); MV v;
-	switch(kind % 5) {
+	switch(kind % 6) {
+	case 5: if(D < 3) return false; v = m_unrotated(m_transposed(m_rotated(r))); break;  // inner dimensions permuted, compact
 	case 0: if(D < 2) return false; v = m_transposed(r); break;
 	case 1: v = m_rotated(r); break;
 	case 2: if(b.ext[0] < 2) return false; v = m_sliced(r, 1, b.ext[0]); break;
-	case 3: if(b.ext[0] % 2 != 0) return false; v = m_strided(r, 2); break;
+	case 3: if(b.ext[0] % 2 != 0 || !b.base_known || b.base[0] != 0) return false; v = m_strided(r, 2); break;  // strided() of a re-based array: C19's domain (recorded finding there)
 	default: v = m_unrotated(r); break;
 	}
 	out.ext = v.size; out.ids.clear(); for(L k = 0; k < v.n(); ++k) out.ids.push_back(b.ids[std::size_t(v.off[std::size_t(k)])]); out.unspec = false; mvout = v; return true;
 }
 template<class AA, class F, int DD = D> void with_view(int kind, AA& b, F&& f) {
 	if constexpr(DD >= 1) {
-		switch(kind % 5) { case 0: if constexpr(DD >= 2) { f(b.transposed()); } break; case 1: f(b.rotated()); break; case 2: f(b.sliced(1, b.size())); break; case 3: f(b.strided(2)); break; default: f(b.unrotated()); break; }
+		switch(kind % 6) { case 5: if constexpr(DD >= 3) { f(b.rotated().transposed().unrotated()); } break; case 0: if constexpr(DD >= 2) { f(b.transposed()); } break; case 1: f(b.rotated()); break; case 2: f(b.sliced(b.extension().first() + 1, b.extension().last())); break; case 3: f(b.strided(2)); break; default: f(b.unrotated()); break; }
 	}
 }
 
 static void adopt(Slot& s) {  // valid-but-unspecified state: take extents and contents from the array itself
-	if(D == 0) { s.m.unspec = true; return; } if(s.a->num_elements() == 0) { s.m = empty_model(); return; } s.m.ext = tuple_to_vec(s.a->sizes()); s.m.ids.assign(std::size_t(s.m.n()), 0); s.m.unspec = true; }
+	if(D == 0) { s.m.unspec = true; return; } if(s.a->num_elements() == 0) { s.m = empty_model(); return; } s.m.ext = tuple_to_vec(s.a->sizes()); s.m.ids.assign(std::size_t(s.m.n()), 0); s.m.unspec = true; s.m.base_known = false; }
+static std::vector<L> rnd_base(Rng& g) { std::vector<L> b(std::size_t(D), 0); if(g.chance(1, 5)) for(auto& x : b) x = g.in(-2, 2); return b; }
 static Alloc pick_alloc(Rng& g) { return VARY_ALLOC ? Alloc(int(g.below(3))) : Alloc(0); }
 
 static void check_all(std::vector<Slot>& pool, std::string const& opk, bool c06op) {
@@ -127,18 +130,18 @@ template<int DD> void history_t(Case& c) {
 		int const steps = int(g.in(3, MAXSTEPS)); int done = 0; bool had_assign_over_state = false;
 		describe("T=" + std::to_string(H_T) + " D=" + std::to_string(D) + " TR=" + std::to_string(H_TR) + ":");
 		for(int s = 0; s < steps; ++s) {
-			std::size_t a = std::size_t(g.below(4)), b = std::size_t(g.below(4)); int o = int(g.below(26)); auto e = rnd_ext(g);
+			std::size_t a = std::size_t(g.below(4)), b = std::size_t(g.below(4)); int o = int(g.below(28)); auto e = rnd_ext(g);
 			if(!pool[a].a && g.chance(3, 4)) o = int(g.below(2));  // empty slot: mostly construct something first, so that histories are not dominated by inapplicable steps
 			if(!pool[b].a && pool[a].a && a != b && g.chance(1, 2)) std::swap(a, b);
 			Slot& A = pool[a]; Slot& B = pool[b]; std::string opk; bool c06 = false; std::ostringstream d;
 			auto estr = [&] { return join(e, "x"); };
 			switch(o) {
 			case 0: { opk = "ctor(ext)"; d << opk << "(" << a << "," << estr() << ")"; cur_op = d.str(); op(opk); softcfg().opk = opk; auto al = pick_alloc(g); A.a.reset(); bool wa = g.chance(1, 2);
-				if(wa) A.a.emplace(make_extensions<D>(e), al); else A.a.emplace(make_extensions<D>(e)); A.m = filled(e, 0); A.m.unspec = TRIVIAL; A.aid = wa ? al.id : 0; A.agen = 0;
+				auto bs = rnd_base(g); if(wa) A.a.emplace(make_extensions<D>(bs, e), al); else A.a.emplace(make_extensions<D>(bs, e)); A.m = filled(e, 0); A.m.base = bs; A.m.base_known = (A.m.n() > 0); A.m.unspec = TRIVIAL; A.aid = wa ? al.id : 0; A.agen = 0;
 				if(TRIVIAL && A.a->num_elements() > 0) { Elem const* p = A.a->data_elements(); for(L k = 0; k < A.a->num_elements(); ++k) if(!is_poison(p[k])) { V("C08:ctor(ext):wrote-trivial-elements", "sizing constructor wrote to elements of a trivially default-constructible type"); break; } count("poison_checks"); }
 				break; }
 			case 1: { opk = "ctor(ext,value)"; d << opk << "(" << a << "," << estr() << ")"; cur_op = d.str(); op(opk); softcfg().opk = opk; auto al = pick_alloc(g); long id = next_id++; A.a.reset(); bool wa = g.chance(1, 2);
-				if(wa) A.a.emplace(make_extensions<D>(e), mk(id), al); else A.a.emplace(make_extensions<D>(e), mk(id)); A.m = filled(e, id); A.aid = wa ? al.id : 0; A.agen = 0; break; }
+				auto bs = rnd_base(g); if(wa) A.a.emplace(make_extensions<D>(bs, e), mk(id), al); else A.a.emplace(make_extensions<D>(bs, e), mk(id)); A.m = filled(e, id); A.m.base = bs; A.m.base_known = (A.m.n() > 0); A.aid = wa ? al.id : 0; A.agen = 0; break; }
 			case 2: { if(!B.a || a == b) break; opk = "copy-ctor"; d << opk << "(" << a << "<-" << b << ")"; cur_op = d.str(); op(opk); softcfg().opk = opk; A.a.reset(); A.a.emplace(*B.a); A.m = B.m; A.aid = B.aid; A.agen = B.agen + 1; break; }
 			case 3: { if(!B.a || a == b) break; opk = "copy-ctor(alloc)"; d << opk << "(" << a << "<-" << b << ")"; cur_op = d.str(); op(opk); softcfg().opk = opk; auto al = pick_alloc(g); A.a.reset(); A.a.emplace(*B.a, al); A.m = B.m; A.aid = al.id; A.agen = 0; break; }
 			case 4: { if(!B.a || a == b) break; opk = "move-ctor"; d << opk << "(" << a << "<-" << b << ")"; cur_op = d.str(); op(opk); softcfg().opk = opk; A.a.reset(); long c0 = registry().special();
@@ -154,50 +157,57 @@ template<int DD> void history_t(Case& c) {
 				bool uneq = (!AEQ && !POCMA && A.aid != B.aid);
 				opk = uneq ? "move-assign(unequal-alloc)" : (A.m.n() == 0 ? "move-assign(to-empty)" : "move-assign"); d << opk << "(" << a << "<-" << b << ")"; cur_op = d.str(); op(opk); softcfg().opk = opk; long c0 = registry().special();
 				*A.a = std::move(*B.a); if(!uneq && registry().special() != c0) V("C04:move-assign:touched-elements", "move assignment copied/moved/assigned " + std::to_string(registry().special() - c0) + " elements");
-				A.m = B.m; if(POCMA) { A.aid = B.aid; A.agen = B.agen; } if(!uneq) { B.m = empty_model(); if(D == 0) { B.m = A.m; B.m.unspec = true; } } else { B.m.unspec = true; } had_assign_over_state = true; break; }
+				A.m = B.m; if(POCMA) { A.aid = B.aid; A.agen = B.agen; } if(!uneq) { B.m = empty_model(); if(D == 0) { B.m = A.m; B.m.unspec = true; } } else { B.m.unspec = true; B.m.base_known = false; } had_assign_over_state = true; break; }
 			case 9: if constexpr(DD >= 1) { if(!A.a || !B.a || a == b) break; if(!AEQ && !POCS && A.aid != B.aid) break; opk = "swap"; d << opk << "(" << a << "," << b << ")"; cur_op = d.str(); op(opk); softcfg().opk = opk; long c0 = registry().special();
 				if(g.chance(1, 2)) swap(*A.a, *B.a); else A.a->swap(*B.a); if(registry().special() != c0) V("C04:swap:touched-elements", "swap of arrays touched elements"); std::swap(A.m, B.m); if(POCS) { std::swap(A.aid, B.aid); std::swap(A.agen, B.agen); } break; } break;
-			case 10: case 11: { if(!A.a || !B.a || a == b) break; Model vm; MV mv; int k = int(g.below(5)); if(!view_of(k, B.m, vm, mv)) break; static char const* VN[] = {"transposed", "rotated", "sliced", "strided", "unrotated"};
+			case 10: case 11: { if(!A.a || !B.a || a == b) break; Model vm; MV mv; int k = int(g.below(6)); if(!view_of(k, B.m, vm, mv)) break; static char const* VN[] = {"transposed", "rotated", "sliced", "strided", "unrotated", "inner-transposed"};
 				opk = std::string("assign-from-view") + (A.m.ext == vm.ext ? "(same-extents)" : "(other-extents)"); d << opk << "(" << a << "<-" << b << "." << VN[k] << ")"; cur_op = d.str(); op(opk); softcfg().opk = opk;
-				with_view(k, *B.a, [&](auto&& v) { *A.a = v; }); A.m = vm; had_assign_over_state = true;
+				with_view(k, *B.a, [&](auto&& v) { *A.a = v; }); A.m = vm; A.m.base_known = false; had_assign_over_state = true;
 				break; }
-			case 12: { if(!B.a || a == b) break; Model vm; MV mv; int k = int(g.below(5)); if(!view_of(k, B.m, vm, mv)) break; opk = "ctor(view)"; d << opk << "(" << a << "<-" << b << " view" << k << ")"; cur_op = d.str(); op(opk); softcfg().opk = opk; A.a.reset(); auto al = pick_alloc(g); bool wa = g.chance(1, 2);
-				with_view(k, *B.a, [&](auto&& v) { if(wa) A.a.emplace(v, al); else A.a.emplace(v); }); A.m = vm; A.aid = wa ? al.id : 0; A.agen = 0; break; }
+			case 12: { if(!B.a || a == b) break; Model vm; MV mv; int k = int(g.below(6)); if(!view_of(k, B.m, vm, mv)) break; opk = "ctor(view)"; d << opk << "(" << a << "<-" << b << " view" << k << ")"; cur_op = d.str(); op(opk); softcfg().opk = opk; A.a.reset(); auto al = pick_alloc(g); bool wa = g.chance(1, 2);
+				with_view(k, *B.a, [&](auto&& v) { if(wa) A.a.emplace(v, al); else A.a.emplace(v); }); A.m = vm; A.m.base_known = false; A.aid = wa ? al.id : 0; A.agen = 0; break; }
 			case 13: if constexpr(DD >= 1) { if(!A.a) break; opk = std::string("assign-from-other-element-type"); Model nm = fresh(e); if(nm.n() == 0) break; opk += (A.m.ext == e ? "(same-extents)" : (A.m.n() == nm.n() ? "(same-count)" : "(other-extents)")); d << opk << "(" << a << "," << estr() << ")"; cur_op = d.str(); op(opk); softcfg().opk = opk;
 				OArr O(make_extensions<D>(e)); { Other* p = O.data_elements(); for(L k2 = 0; k2 < nm.n(); ++k2) p[k2] = mko(nm.ids[std::size_t(k2)]); } *A.a = O; A.m = nm; had_assign_over_state = true; break; } break;
 			case 14: if constexpr(DD >= 1) { if(!A.a || D == 0) break; c06 = true; bool fill = g.chance(1, 2); bool rv = !fill && g.chance(1, 4); opk = rv ? "reextent(&&)" : (fill ? "reextent(x,v)" : "reextent(x)");
-				char const* cls = A.m.ext == e ? "same" : (A.m.n() == 0 ? "from-empty" : (Model{e, {}}.n() == 0 ? "to-empty" : "other")); d << opk << "(" << a << "," << join(A.m.ext, "x") << "->" << estr() << ")"; cur_op = d.str(); op(opk + ":" + cls); softcfg().opk = opk;
+				std::vector<L> const ob = (A.m.base_known && A.m.n() > 0) ? A.m.base : std::vector<L>(std::size_t(D), 0); bool zb = true; for(L x : ob) zb &= (x == 0); bool const same = (A.m.ext == e) && zb;  // the requested extensions are 0-based
+				char const* cls = same ? "same" : (A.m.n() == 0 ? "from-empty" : (Model{e, {}}.n() == 0 ? "to-empty" : "other")); d << opk << "(" << a << "," << join(A.m.ext, "x") << "->" << estr() << ")"; cur_op = d.str(); op(opk + ":" + cls); softcfg().opk = opk;
 				long fid = fill ? next_id++ : 0; Model nm = filled(e, fid); std::vector<char> isnew(std::size_t(nm.n()), 1);
-				if(A.m.n() > 0 && nm.n() > 0) { MV om = MV::root(A.m.ext), nn = MV::root(e); std::vector<L> ix; for(L k = 0; k < nm.n(); ++k) { nn.unlin(k, ix); bool in = true; for(int q = 0; q < D; ++q) in &= ix[std::size_t(q)] < A.m.ext[std::size_t(q)]; if(in) { nm.ids[std::size_t(k)] = A.m.ids[std::size_t(om.lin(ix))]; isnew[std::size_t(k)] = 0; } } }
-				Elem const* before = A.a->data_elements(); bool const noop = (A.m.ext == e) || (A.m.n() == 0 && nm.n() == 0 && false);
+				if(A.m.n() > 0 && nm.n() > 0) { MV om = MV::root(A.m.ext), nn = MV::root(e); std::vector<L> ix; for(L k = 0; k < nm.n(); ++k) { nn.unlin(k, ix); bool in = true; std::vector<L> ox = ix; for(int q = 0; q < D; ++q) { ox[std::size_t(q)] -= ob[std::size_t(q)]; in &= ox[std::size_t(q)] >= 0 && ox[std::size_t(q)] < A.m.ext[std::size_t(q)]; } if(in) { ix = ox; nm.ids[std::size_t(k)] = A.m.ids[std::size_t(om.lin(ix))]; isnew[std::size_t(k)] = 0; } } }
+				Elem const* before = A.a->data_elements(); bool const noop = same;
 				if(rv) { std::move(*A.a).reextent(make_extensions<D>(e)); } else if(fill) { A.a->reextent(make_extensions<D>(e), mk(fid)); } else { A.a->reextent(make_extensions<D>(e)); }
-				if(A.m.ext == e && A.a->data_elements() != before) V("C06:" + opk + ":noop-reallocated", "reextent to the current extents changed data_elements()");
+				if(same && A.a->data_elements() != before) V("C06:" + opk + ":noop-reallocated", "reextent to the current extents changed data_elements()");
 				(void)noop;
-				if(rv && !(A.m.ext == e)) { nm = filled(e, 0); nm.unspec = true; }  // the rvalue overload discards the contents by design: only extents/validity are required
-				else if(!fill && TRIVIAL && !(A.m.ext == e) && nm.n() > 0) {  // new elements of a trivially default-constructible type are unspecified — and must not have been written (C08)
+				if(rv && !same) { nm = filled(e, 0); nm.unspec = true; }  // the rvalue overload discards the contents by design: only extents/validity are required
+				else if(!fill && TRIVIAL && !same && nm.n() > 0) {  // new elements of a trivially default-constructible type are unspecified — and must not have been written (C08)
 					Elem const* p = A.a->data_elements(); bool wrote = false; for(L k = 0; k < nm.n(); ++k) if(isnew[std::size_t(k)]) { if(L(tuple_to_vec(A.a->sizes()) == e) && !is_poison(p[k])) wrote = true; nm.ids[std::size_t(k)] = id_of(p[k]); } count("poison_checks");
 					if(wrote) V("C08:reextent(x):wrote-trivial-elements", "reextent without a fill value wrote to new elements of a trivially default-constructible type"); }
-				A.m = nm; break; } break;
+				A.m = nm; A.m.base.assign(std::size_t(D), 0); A.m.base_known = (nm.n() > 0); break; } break;
 			case 15: if constexpr(DD >= 1) { if(!A.a) break; c06 = true; bool il = g.chance(1, 2); opk = il ? "assign={}" : "clear"; d << opk << "(" << a << ")"; cur_op = d.str(); op(opk); softcfg().opk = opk; if(il) *A.a = {}; else A.a->clear(); A.m = empty_model(); if(D == 0) { A.m.unspec = true; A.m.ids = {0}; } break; } break;
 			case 16: { if(!A.a || D == 0 || A.m.n() == 0) break; c06 = true; std::vector<L> ne = A.m.ext; std::size_t i = std::size_t(g.below(D)), j = std::size_t(g.below(D)); std::swap(ne[i], ne[j]); if(D >= 2 && g.chance(1, 2)) { L nn = A.m.n(); ne.assign(std::size_t(D), 1); ne[std::size_t(g.below(D))] = nn; }
-				opk = "reshape"; d << opk << "(" << a << "," << join(A.m.ext, "x") << "->" << join(ne, "x") << ")"; cur_op = d.str(); op(opk); softcfg().opk = opk; Elem const* before = A.a->data_elements(); A.a->reshape(make_extensions<D>(ne)); if(A.a->data_elements() != before) V("C06:reshape:reallocated", "reshape changed data_elements()"); A.m.ext = ne; break; }
+				opk = "reshape"; d << opk << "(" << a << "," << join(A.m.ext, "x") << "->" << join(ne, "x") << ")"; cur_op = d.str(); op(opk); softcfg().opk = opk; Elem const* before = A.a->data_elements(); A.a->reshape(make_extensions<D>(ne)); if(A.a->data_elements() != before) V("C06:reshape:reallocated", "reshape changed data_elements()"); A.m.ext = ne; A.m.base.assign(std::size_t(D), 0); A.m.base_known = true; break; }
 			case 17: { if(!A.a || D != 1) break; c06 = true; Model nm = fresh({g.in(1, MAXEXT + 1)});  // (an empty iterator pair makes the library evaluate *first on an end iterator — formed, never read; excluded, see DESIGN.md) opk = std::string("assign(first,last)") + (nm.ext == A.m.ext ? "(same-size)" : "(other-size)"); d << opk << "(" << a << "," << nm.ext[0] << ")"; cur_op = d.str(); op(opk); softcfg().opk = opk;
 				std::vector<Elem> src; for(long id : nm.ids) src.push_back(mk(id)); if constexpr(DD == 1) { if(g.chance(1, 2)) A.a->assign(src.begin(), src.end()); else A.a->assign(src); } A.m = nm; break; }
-			case 18: { if(!A.a || !B.a || a == b || D < 2 || B.m.n() == 0) break; c06 = true; opk = "assign(first,last)(rows)"; d << opk << "(" << a << "<-rows of " << b << ")"; cur_op = d.str(); op(opk); softcfg().opk = opk; if constexpr(DD >= 2) { A.a->assign(B.a->begin(), B.a->end()); } A.m = B.m; break; }
+			case 18: { if(!A.a || !B.a || a == b || D < 2 || B.m.n() == 0) break; c06 = true; opk = "assign(first,last)(rows)"; d << opk << "(" << a << "<-rows of " << b << ")"; cur_op = d.str(); op(opk); softcfg().opk = opk; if constexpr(DD >= 2) { A.a->assign(B.a->begin(), B.a->end()); } A.m = B.m; A.m.base_known = false; break; }
 			case 19: { if(!A.a || A.m.n() == 0) break; opk = "element-write"; L k = g.below(A.m.n()); long id = next_id++; d << opk << "(" << a << ",#" << k << ")"; cur_op = d.str(); op(opk); softcfg().opk = opk;
-				if constexpr(DD == 0) { *A.a->data_elements() = mk(id); } else { std::vector<L> ix; MV::root(A.m.ext).unlin(k, ix); brk(*A.a, ix) = mk(id); } A.m.ids[std::size_t(k)] = id; break; }
-			case 20: { if(!B.a || a == b) break; opk = "decay(+)"; d << opk << "(" << a << "<-+" << b << ")"; cur_op = d.str(); op(opk); softcfg().opk = opk; A.a.reset(); if(g.chance(1, 2)) A.a.emplace(+*B.a); else A.a.emplace(B.a->decay()); A.m = B.m; { auto al = A.a->get_allocator(); A.aid = al.id; A.agen = al.gen; } count("decay"); break; }
+				if constexpr(DD == 0) { *A.a->data_elements() = mk(id); } else { std::vector<L> ix; MV::root(A.m.ext).unlin(k, ix); if(A.m.base_known) for(std::size_t q = 0; q < ix.size(); ++q) ix[q] += A.m.base[q]; brk(*A.a, ix) = mk(id); } A.m.ids[std::size_t(k)] = id; break; }
+			case 20: { if(!B.a || a == b) break; opk = "decay(+)"; d << opk << "(" << a << "<-+" << b << ")"; cur_op = d.str(); op(opk); softcfg().opk = opk; A.a.reset(); if(g.chance(1, 2)) A.a.emplace(+*B.a); else A.a.emplace(B.a->decay()); A.m = B.m; A.m.base_known = false; { auto al = A.a->get_allocator(); A.aid = al.id; A.agen = al.gen; } count("decay"); break; }
 			case 21: { if(!A.a) break; c06 = true; if(D == 0 || D > 3) break;  // nested initializer lists (compile-time shapes)
 				opk = "assign-init-list"; d << opk << "(" << a << ")"; cur_op = d.str(); op(opk); softcfg().opk = opk; long i0 = next_id; next_id += 6;
 				if constexpr(DD == 1) { int w = int(g.below(3)); if(w == 0) { *A.a = {mk(i0), mk(i0 + 1), mk(i0 + 2)}; A.m.ext = {3}; A.m.ids = {i0, i0 + 1, i0 + 2}; } else if(w == 1) { *A.a = {mk(i0)}; A.m.ext = {1}; A.m.ids = {i0}; } else { *A.a = {mk(i0), mk(i0 + 1), mk(i0 + 2), mk(i0 + 3), mk(i0 + 4)}; A.m.ext = {5}; A.m.ids = {i0, i0 + 1, i0 + 2, i0 + 3, i0 + 4}; } }
 				else if constexpr(DD == 2) { int w = int(g.below(3)); if(w == 0) { *A.a = {{mk(i0), mk(i0 + 1)}, {mk(i0 + 2), mk(i0 + 3)}}; A.m.ext = {2, 2}; A.m.ids = {i0, i0 + 1, i0 + 2, i0 + 3}; } else if(w == 1) { *A.a = {{mk(i0), mk(i0 + 1), mk(i0 + 2)}}; A.m.ext = {1, 3}; A.m.ids = {i0, i0 + 1, i0 + 2}; } else { *A.a = {{mk(i0)}, {mk(i0 + 1)}, {mk(i0 + 2)}}; A.m.ext = {3, 1}; A.m.ids = {i0, i0 + 1, i0 + 2}; } }
-				else if constexpr(DD == 3) { *A.a = {{{mk(i0), mk(i0 + 1)}}, {{mk(i0 + 2), mk(i0 + 3)}}}; A.m.ext = {2, 1, 2}; A.m.ids = {i0, i0 + 1, i0 + 2, i0 + 3}; }
-				A.m.unspec = false; break; }
+				else if constexpr(DD == 3) { if(g.chance(1, 2)) { *A.a = {{{mk(i0), mk(i0 + 1)}}, {{mk(i0 + 2), mk(i0 + 3)}}}; A.m.ext = {2, 1, 2}; } else { *A.a = {{{mk(i0)}, {mk(i0 + 1)}}, {{mk(i0 + 2)}, {mk(i0 + 3)}}}; A.m.ext = {2, 2, 1}; } A.m.ids = {i0, i0 + 1, i0 + 2, i0 + 3}; }
+				A.m.unspec = false; A.m.base_known = false; break; }
 			case 22: { if(D == 0 || D > 2) break; opk = "ctor(init-list)"; d << opk << "(" << a << ")"; cur_op = d.str(); op(opk); softcfg().opk = opk; long i0 = next_id; next_id += 4; A.a.reset();
 				if constexpr(DD == 1) { Arr tmp = {mk(i0), mk(i0 + 1), mk(i0 + 2)}; A.a.emplace(std::move(tmp)); A.m.ext = {3}; A.m.ids = {i0, i0 + 1, i0 + 2}; }
 				else if constexpr(DD == 2) { Arr tmp = {{mk(i0), mk(i0 + 1)}, {mk(i0 + 2), mk(i0 + 3)}}; A.a.emplace(std::move(tmp)); A.m.ext = {2, 2}; A.m.ids = {i0, i0 + 1, i0 + 2, i0 + 3}; }
-				A.m.unspec = false; A.aid = 0; A.agen = 0; break; }
-			case 23: { if(!B.a || D != 1) break; opk = "ctor(first,last)"; d << opk << "(" << a << "<-elems of " << b << ")"; cur_op = d.str(); op(opk); softcfg().opk = opk; if constexpr(DD == 1) { std::vector<Elem> src; for(long id : B.m.ids) src.push_back(mk(id)); if(B.m.unspec || src.empty()) break; A.a.reset(); A.a.emplace(src.begin(), src.end()); A.m = B.m; A.aid = 0; A.agen = 0; } break; }
+				A.m.unspec = false; A.m.base_known = false; A.aid = 0; A.agen = 0; break; }
+			case 23: { if(!B.a || D != 1) break; opk = "ctor(first,last)"; d << opk << "(" << a << "<-elems of " << b << ")"; cur_op = d.str(); op(opk); softcfg().opk = opk; if constexpr(DD == 1) { std::vector<Elem> src; for(long id : B.m.ids) src.push_back(mk(id)); if(B.m.unspec || src.empty()) break; A.a.reset(); A.a.emplace(src.begin(), src.end()); A.m = B.m; A.m.base_known = false; A.aid = 0; A.agen = 0; } break; }
+			case 26: { if(!A.a) break; Model vm; MV mv; int k = int(g.below(6)); if(!view_of(k, A.m, vm, mv) || A.m.unspec) break; static char const* VN2[] = {"transposed", "rotated", "sliced", "strided", "unrotated", "inner-transposed"};
+				opk = std::string("assign-from-own-view") + (A.m.ext == vm.ext ? "(same-extents)" : (A.m.n() == vm.n() ? "(same-count)" : "(other-extents)")); if(A.m.n() == vm.n()) break;  // an overlapping assignment that reuses the storage (same extents or same element count) is not in domain, see DESIGN.md
+				d << opk << "(" << a << "<-" << a << "." << VN2[k] << ")"; cur_op = d.str(); op(opk); softcfg().opk = opk; with_view(k, *A.a, [&](auto&& v) { *A.a = v; }); A.m = vm; A.m.base_known = false; had_assign_over_state = true; break; }
+			case 27: { if(!A.a || !B.a || a == b || D < 3 || B.m.n() == 0 || B.m.unspec) break; c06 = true;  // (3) assign(first,last) / assignment from the rows of an array with the same row count and element count but other inner extents
+				{ std::vector<L> ne = B.m.ext; std::swap(ne[1], ne[std::size_t(D - 1)]); if(ne == B.m.ext) break; Model tm = fresh(ne); A.a.reset(); A.a.emplace(make_extensions<D>(ne), mk(0)); write_ids(*A.a, tm); A.m = tm; A.m.base.assign(std::size_t(D), 0); A.m.base_known = true; A.aid = 0; A.agen = 0; }
+				opk = "assign(first,last)(rows,same-count-other-inner-extents)"; d << opk << "(" << a << "<-rows of " << b << ")"; cur_op = d.str(); op(opk); softcfg().opk = opk; if constexpr(DD >= 3) { A.a->assign(B.a->begin(), B.a->end()); } A.m.ext = B.m.ext; A.m.ids = B.m.ids; A.m.base_known = false; break; }
 			case 24: { opk = "destroy"; d << opk << "(" << a << ")"; cur_op = d.str(); op(opk); softcfg().opk = opk; A.a.reset(); A.m = Model{}; break; }
 			default: if constexpr(DD >= 1) { if(!A.a) break; opk = "default-ctor+assign"; d << opk << "(" << a << ")"; cur_op = d.str(); op(opk); softcfg().opk = opk; Arr tmp; tmp = *A.a; std::string why; Model mm = A.m; if(!matches(tmp, mm, why)) V("C04:default-ctor+assign:array-differs-from-model", why); break; } break;
 			}
